@@ -97,7 +97,6 @@ CONFIGURATION_OPTIONS_EMPTY_VALID = {
             SAFE_PERCENT_ENCODING: DEFAULT_SAFE_PERCENT_ENCODING,
             READ_PARSED_MAPPINGS_PATH: DEFAULT_READ_PARSED_MAPPINGS_PATH,
             WRITE_PARSED_MAPPINGS_PATH: DEFAULT_WRITE_PARSED_MAPPINGS_PATH,
-            MAPPING_PARTITIONING: PARTIAL_AGGREGATIONS_PARTITIONING,
             LOGGING_FILE: DEFAULT_LOGGING_FILE,
             UDFS: DEFAULT_UDFS,
             OUTPUT_KAFKA_SERVER: DEFAULT_OUTPUT_KAFKA_SERVER,
@@ -108,6 +107,7 @@ CONFIGURATION_OPTIONS_EMPTY_VALID = {
 CONFIGURATION_OPTIONS_EMPTY_NON_VALID = {
             OUTPUT_DIR: DEFAULT_OUTPUT_DIR,
             OUTPUT_FORMAT: DEFAULT_OUTPUT_FORMAT,
+            MAPPING_PARTITIONING: PARTIAL_AGGREGATIONS_PARTITIONING,
             ONLY_PRINTABLE_CHARS: DEFAULT_ONLY_PRINTABLE_CHARS,
             INFER_SQL_DATATYPES: DEFAULT_INFER_SQL_DATATYPES,
             LOGGING_LEVEL: DEFAULT_LOGGING_LEVEL,
